@@ -128,9 +128,13 @@ pub fn extras() -> Vec<&'static str> {
         "0,CONSUMO,ILU,ELECTRICIDAD,4,4,4\n1,PRODUCCION,EL_INSITU,10,10,10\n2,PRODUCCION,EL_COGEN,0,0,0\n2,CONSUMO,COGEN,GASNATURAL,0,0,0\n3,CONSUMO,CAL,GASNATURAL,20,20,20",
         // declared ambient production a few Wh short of the use (the missing part is added whatever its size)
         "1,CONSUMO,CAL,EAMBIENTE,0.019,0,0.05\n1,PRODUCCION,EAMBIENTE,0.012,0,0.05\n2,CONSUMO,ILU,ELECTRICIDAD,1,1,1",
+        // declared ambient production 3 Wh short of the use at every step (values written with 3 and 2 decimals)
+        "1,CONSUMO,CAL,EAMBIENTE,1.273,1.273\n1,PRODUCCION,EAMBIENTE,1.27,1.27\n1,CONSUMO,CAL,ELECTRICIDAD,0.5,0.5",
         // auxiliary energy as the only electricity component; a step with very little on-site production next to a large one
         "1,CONSUMO,CAL,GASNATURAL,190,150,100\n1,AUX,20,15,10",
         "CONSUMO,ILU,ELECTRICIDAD,5000,5000,5000\nPRODUCCION,EL_INSITU,20000,15,0",
+        // a reserve system: two services, outputs and auxiliaries declared and all zero
+        "1,CONSUMO,CAL,GASNATURAL,0,0,0\n1,CONSUMO,ACS,GASNATURAL,0,0,0\n1,SALIDA,CAL,0,0,0\n1,SALIDA,ACS,0,0,0\n1,AUX,0,0,0\n2,CONSUMO,ILU,ELECTRICIDAD,33,32,31\n2,CONSUMO,CAL,GASNATURAL,50,40,30",
         // a pump group declared only through its output and its auxiliaries (no CONSUMO line), PV that matches the auxiliaries step by step
         "1,CONSUMO,CAL,GASNATURAL,100,80,60\n2,SALIDA,CAL,50,40,30\n2,AUX,4,3,2\n3,PRODUCCION,EL_INSITU,4,3,2",
         // two identical consecutive lines (two equal PV fields, two equal boilers) next to a cogenerator: both count
